@@ -20,13 +20,12 @@ META = {
                   'assigns_to_counts/trim_disconnected', 'enspara.msm.timescales.calc_imp_times',
                   'enspara.msm.synthetic_data.synthetic_ensemble'],
     'bounds': {'quick': 'fit vs pipeline: 2 trajectories (lengths 3,2 / 4), 2 states, lag 1..2, trim on/off, sliding on/off, '
-                        'builders normalize(no eq)/transpose through the public callable-method API on dense counts; spectrum n<=3 '
+                        'builders normalize(no eq)/transpose through the public callable-method API on dense counts AND on the sparse (coo) counts the default path hands them; spectrum n<=3 '
                         '(n_eigs, left/right); timescales n=2; ensemble n<=3, steps<=3',
                'thorough': 'fit vs pipeline for length vectors up to 7 frames in <=3 trajectories, lag<=3, 2 states; spectrum n<=3 (n=4: solver unknown, not claimed); ensembles n<=4, <=5 steps'},
-    'stubs': ['scipy.linalg.eig = Perron contract', 'COO contract (SymCOO)', 'connected_components contract',
+    'stubs': ['scipy.linalg.eig = Perron contract', 'COO contract (SymCOO) + scipy.sparse shadow symnp/sparse.py (conformance-checked in the C04/C07/C08/C11 checks)', 'connected_components contract',
               'aslinearoperator(T).rmatvec(p) = T^T.p', 'log uninterpreted'],
-    'assumptions': ['exact real arithmetic', 'builders receive dense counts (method=callable wrapper); sparse container '
-                    'behaviour is outside the claim', 'transition matrices irreducible for the spectral part'],
+    'assumptions': ['exact real arithmetic', 'transition matrices irreducible for the spectral part'],
     'outside': ['save/load round trip (Matrix-Market text, pickle, csv via the file system)', 'ARPACK path (n >= 1000)',
                 'synthetic_trajectory (random sampling)'],
 }
@@ -45,6 +44,12 @@ def dense_builder(name):
     b = loader.load('enspara.msm.builders')
 
     def method(C):
+        if name.endswith('-sparse'):
+            # the default MSM path: the builder receives the sparse counts (coo) from assigns_to_counts / trim_disconnected
+            # (symbolic shadow of scipy.sparse inside a symbolic run, the real classes in replays)
+            if name.startswith('normalize'):
+                return b.normalize(C, calculate_eq_probs=False)
+            return b.transpose(C)
         Cd = C.toarray() if hasattr(C, 'toarray') else C
         if core.active() and isinstance(Cd, np.ndarray) and not isinstance(Cd, SArr):
             # a count matrix without a single symbolic entry comes back from scipy as a plain ndarray; inside a symbolic run
@@ -387,7 +392,7 @@ def jobs(tier):
     lens = [(3, 2), (4,)] if q else [(3, 2), (4,), (4, 3), (2, 2, 2), (5,), (3, 3), (2, 1, 3)]
     for L in lens:
         for lag in ((1, 2) if q else (1, 2, 3)):
-            for builder in ('transpose', 'normalize-noeq'):
+            for builder in ('transpose', 'normalize-noeq') + (('transpose-sparse', 'normalize-sparse') if L in ((3, 2), (4,)) else ()):
                 for trim in (False, True):
                     for sliding in (True, False):
                         if not sliding and lag == 1:
